@@ -82,7 +82,7 @@ static Step make_step(const std::string &op, Rng &r, bool utils_keys = false) {
     if (op == "refuse") return mk(op, {R(r), R(r), R(r), R(r), R(r)}, {key()});
     if (op == "parse") return mk(op, {R(r), R(r), R(r), R(r)});
     if (op == "print") return mk(op, {R(r), R(r), R(r), R(r), R(r)});
-    if (op == "build_deep" || op == "build_wide") return mk(op, {R(r), R(r)});
+    if (op == "build_deep" || op == "build_wide" || op == "build_big") return mk(op, {R(r), R(r)});
     if (op == "roundtrip" || op == "strictprint" || op == "capscan") return mk(op, {R(r), R(r), R(r)});
     if (op == "sort") return mk(op, {R(r), R(r), R(r)});
     if (op == "twinprint") return mk(op, {R(r), R(r)});
@@ -182,6 +182,7 @@ Plan gen_plan(const std::string &prop, uint64_t seed, int64_t run) {
         if (prop == "C05") stage.push_back({"poke_nan", 2});
         if (r.chance(1, prop == "C09" ? 40 : 12)) p.steps.push_back(make_step("build_deep", r));
         if (prop != "C09" && r.chance(1, 15)) p.steps.push_back(make_step("build_wide", r));
+        if (prop != "C09" && r.chance(1, 150)) p.steps.push_back(make_step("build_big", r));
         int rounds = (int)r.range(1, 4);
         for (int k = 0; k < rounds; k++) {
             add_steps(p, stage, r, len_range(r, 2, 14));
